@@ -4,7 +4,7 @@ from .c02 import project
 
 PROP = 'C08'
 PREDICATE = 'C08'
-LEAN_TARGETS = ['LLTD.Props.C08', 'LLTD.Props.C08H']
+LEAN_TARGETS = ['LLTD.Props.C08', 'LLTD.Props.C08H', 'LLTD.Props.C08T']
 VARIANT = 'plain'
 RULE = ('QueryLargeTlv requests with data sizes and offsets at {0,1,P-1,P,P+1,2P-1,2P,2P+1,size-1,size,size+1,65535} (P = MTU-34), property '
         'types 0..255 (dense on 0x0E/0x11/0x13), sequence number 0 and non-zero, MTU in {576,1500,9216}, icon / friendly name / hardware id '
